@@ -130,6 +130,34 @@ fn check_cell_exclusive(levels: &[Vec<CellGeom>], fr: &rg::Frame, g: &CellGeom, 
             Ok(p) if rg::signed_dist_convex(&g.poly, p) > 1e-9 * g.diam + BAND => {}
             _ => continue,
         }
+        // the library's own containment predicate (it decides what a lookup returns, and callers use it
+        // directly) must say "inside" for the owner and "outside" for the other cells of the level that
+        // are near (same face; all cells for resolution 0 and 1)
+        {
+            let (lon, lat) = rg::vec_to_ll(v);
+            let vv = rg::ll_to_vec(lon, lat);
+            let still_inside = matches!(subj::forward(vv, g.face), Ok(p) if rg::signed_dist_convex(&g.poly, p) > 1e-6 * g.diam + BAND);
+            if still_inside {
+                let others: Vec<&CellGeom> = if r <= 1 { levels.iter().flatten().collect() } else { levels[g.face as usize].iter().filter(|o| o.bbox[0] <= g.bbox[2] + g.diam && o.bbox[2] >= g.bbox[0] - g.diam && o.bbox[1] <= g.bbox[3] + g.diam && o.bbox[3] >= g.bbox[1] - g.diam).collect() };
+                for o in others {
+                    if let Ok(cell) = subj::deserialize(o.id) {
+                        let inside = subj::guard(|| a5::core::cell::a5cell_contains_point(&cell, a5::coordinate_systems::LonLat::new(lon, lat))).map(|d| d > 0.0);
+                        match inside {
+                            Ok(b) if b == (o.id == g.id) => {}
+                            Ok(b) => {
+                                out.push(viol(
+                                    "C03/predicate-overlap",
+                                    format!("a point strictly inside {} only is reported {} {} by the library's containment predicate (resolution {})", subj::hex(g.id), if b { "inside" } else { "outside" }, subj::hex(o.id), r),
+                                    json!({"kind": "cell_pair", "a": subj::hex(g.id), "b": subj::hex(o.id)}),
+                                ));
+                                return out;
+                            }
+                            Err(_) => {}
+                        }
+                    }
+                }
+            }
+        }
         if let Ok((strict, _)) = containing(levels, fr, v) {
             for o in strict {
                 if o != g.id {
